@@ -1651,7 +1651,11 @@ CPU_SPELL = [lambda c: '%d%%' % c, lambda c: '%d' % c, lambda c: c]
 
 class Generator:
     def __init__(self, config, streams):
-        self.config = config
+        # (own copy: the limits an affinity declares may be redeclared
+        # between generations of its instances, see g_relimit_generation)
+        self.config = dict(config)
+        self.config['aff_limits'] = {
+            k: dict(v) for k, v in config['aff_limits'].items()}
         self.rng = streams.get('gen')
         self.nsrv = len(config['servers'])
         self.follow = []
@@ -2288,6 +2292,37 @@ class Generator:
             {'op': 'master_cycle'}])
         return {'op': 'app_delete', 'name': low_name}
 
+    def g_relimit_generation(self, world):
+        """Every instance of an affinity is deleted, the affinity's limits
+        are redeclared (often the same values on other levels), and a new
+        generation of instances arrives (instances of one affinity share
+        their limits at all times)."""
+        limited = sorted(self.config['aff_limits'])
+        if not limited:
+            return None
+        aff = self.rng.choice(limited)
+        old = self.config['aff_limits'][aff]
+        mine = [n for n in self._scheduled(world) if n.split('#')[0] == aff]
+        levels = ['server', 'rack', 'pod', 'cell']
+        self.rng.shuffle(levels)
+        if self.rng.random() < 0.7:
+            new = dict(zip(levels, sorted(old.values())))
+        else:
+            new = {lv: self.rng.randint(1, 3) for lv in levels
+                   if self.rng.random() < 0.5}
+        ops = [{'op': 'app_delete', 'name': n} for n in mine]
+        ops.extend([{'op': 'drain'}, {'op': 'master_cycle'}])
+        self.config['aff_limits'][aff] = new
+        manifest = {'memory': '256M', 'cpu': '10%', 'disk': '256M',
+                    'affinity': aff}
+        if new:
+            manifest['affinity_limits'] = dict(new)
+        ops.extend([{'op': 'app_create', 'app_id': aff, 'manifest': manifest,
+                     'count': self.rng.randint(2, 4)},
+                    {'op': 'drain'}, {'op': 'master_cycle'}])
+        self.follow.extend(ops[1:])
+        return ops[0]
+
     def g_identity_handover_crash(self, world, staged=False):
         """An identity changes hands inside one cycle - its holder is
         blacked out (stays scheduled, loses its placement) and a waiting
@@ -2371,7 +2406,7 @@ OP_WEIGHTS = [
     ('m_probe', 0), ('bucket_deleted_failover', 2),
     ('undefined_server_event', 4), ('reparent_to_undefined_rack', 2),
     ('detach_then_touch_server', 5), ('reparent_loaded', 5),
-    ('identity_handover_crash', 3),
+    ('identity_handover_crash', 3), ('relimit_generation', 5),
 ]
 
 
